@@ -562,6 +562,16 @@ func (w *World) querySignerSets(chain string) []*mhub2types.SignerSetTx {
 	return r.SignerSets
 }
 
+// hubCurrentValset is what the real relayer passes to the contract as "current validator set": the hub's
+// LastObservedSignerSetTx (orchestrator/relayer/src/find_latest_valset.rs), not anything read from the contract.
+func (w *World) hubCurrentValset(chain string) (members []ext.Member, nonce uint64, ok bool) {
+	var r mhub2types.SignerSetTxResponse
+	if err := w.N().Query("/mhub2.v1.Query/LastObservedSignerSetTx", &mhub2types.LastObservedSignerSetTxRequest{ChainId: chain}, &r); err != nil || r.SignerSet == nil {
+		return nil, 0, false
+	}
+	return membersOf(r.SignerSet), r.SignerSet.Nonce, true
+}
+
 func (w *World) queryBatches(chain string) []*mhub2types.BatchTx {
 	var r mhub2types.BatchTxsResponse
 	if err := w.N().Query("/mhub2.v1.Query/BatchTxs", &mhub2types.BatchTxsRequest{ChainId: chain, Pagination: &query.PageRequest{Limit: 1000}}, &r); err != nil {
@@ -643,14 +653,18 @@ func (w *World) doRelay(in Intent) {
 		for _, c := range w.querySignerSetConfs(in.Chain, s.Nonce) {
 			sigBy[ext.ParseAddr(c.ExternalSigner)] = c.Signature
 		}
-		cur := append([]ext.Member(nil), e.Valset...)
+		cur, curNonce, okc := w.hubCurrentValset(in.Chain)
+		if !okc {
+			w.St.Inc("relay:no-observed-valset")
+			return
+		}
 		sigs := alignSigs(cur, sigBy, in.Mask, ext.MakeCheckpoint(membersOf(s), s.Nonce, e.GravityID))
-		call := &ExtCall{Chain: in.Chain, Kind: "valset", Info: map[string]string{"nonce": strconv.FormatUint(s.Nonce, 10)}}
+		call := &ExtCall{Chain: in.Chain, Kind: "valset", Info: map[string]string{"nonce": strconv.FormatUint(s.Nonce, 10)}, Cur: cur, CurNonce: curNonce}
 		if in.Mask == 0 {
 			call.Info["full"] = "1" // the relayer submits every confirmation the hub has
 		}
 		w.preExtCall(call, s, nil, nil, sigs)
-		call.Err = e.UpdateValset(membersOf(s), s.Nonce, cur, e.ValsetNonce, sigs)
+		call.Err = e.UpdateValset(membersOf(s), s.Nonce, cur, curNonce, sigs)
 		w.postExtCall(call)
 	case "batch", "batch_stale":
 		var b *mhub2types.BatchTx
@@ -699,15 +713,19 @@ func (w *World) doRelay(in Intent) {
 				}
 			}
 		}
-		cur := append([]ext.Member(nil), e.Valset...)
+		cur, curNonce, okc := w.hubCurrentValset(in.Chain)
+		if !okc {
+			w.St.Inc("relay:no-observed-valset")
+			return
+		}
 		sigs := alignSigs(cur, sigBy, in.Mask, ext.BatchHash(batchCallOf(b), e.GravityID))
 		gas := bigOf(in.Gas)
-		call := &ExtCall{Chain: in.Chain, Kind: "batch", Info: map[string]string{"nonce": strconv.FormatUint(b.BatchNonce, 10), "token": b.ExternalTokenId}}
+		call := &ExtCall{Chain: in.Chain, Kind: "batch", Info: map[string]string{"nonce": strconv.FormatUint(b.BatchNonce, 10), "token": b.ExternalTokenId}, Cur: cur, CurNonce: curNonce}
 		if in.Mask == 0 && in.Op == "batch" {
 			call.Info["full"] = "1"
 		}
 		w.preExtCall(call, nil, b, nil, sigs)
-		call.Err = e.SubmitBatch(cur, e.ValsetNonce, sigs, batchCallOf(b), relayer, gas)
+		call.Err = e.SubmitBatch(cur, curNonce, sigs, batchCallOf(b), relayer, gas)
 		w.postExtCall(call)
 	case "logic":
 		var r mhub2types.ContractCallTxsResponse
@@ -719,11 +737,14 @@ func (w *World) doRelay(in Intent) {
 		for _, cf := range w.queryCallConfs(in.Chain, c.InvalidationScope, c.InvalidationNonce) {
 			sigBy[ext.ParseAddr(cf.ExternalSigner)] = cf.Signature
 		}
-		cur := append([]ext.Member(nil), e.Valset...)
+		cur, curNonce, okc := w.hubCurrentValset(in.Chain)
+		if !okc {
+			return
+		}
 		sigs := alignSigs(cur, sigBy, in.Mask, ext.LogicCallHash(logicCallOf(c), e.GravityID))
-		call := &ExtCall{Chain: in.Chain, Kind: "logic", Info: map[string]string{"nonce": strconv.FormatUint(c.InvalidationNonce, 10)}}
+		call := &ExtCall{Chain: in.Chain, Kind: "logic", Info: map[string]string{"nonce": strconv.FormatUint(c.InvalidationNonce, 10)}, Cur: cur, CurNonce: curNonce}
 		w.preExtCall(call, nil, nil, c, sigs)
-		call.Err = e.SubmitLogicCall(cur, e.ValsetNonce, sigs, logicCallOf(c), relayer)
+		call.Err = e.SubmitLogicCall(cur, curNonce, sigs, logicCallOf(c), relayer)
 		w.postExtCall(call)
 	}
 }
